@@ -5,6 +5,7 @@ import (
 	"fmt"
 	"io"
 	"strings"
+	"sync"
 )
 
 type TemplateWriter interface {
@@ -50,6 +51,9 @@ type Template struct {
 	// Options allow you to change the behavior of template-engine.
 	// You can change the options before calling the Execute method.
 	Options *Options
+
+	// trimOnce guards the one-time application of TrimBlocks/LStripBlocks.
+	trimOnce sync.Once
 }
 
 func newTemplateString(set *TemplateSet, tpl []byte) (*Template, error) {
@@ -94,7 +98,7 @@ func newTemplate(set *TemplateSet, name string, isTplString bool, tpl []byte) (*
 	return t, nil
 }
 
-func (tpl *Template) newContextForExecution(context Context) (*Template, *ExecutionContext, error) {
+func (tpl *Template) applyWhitespaceOptions() {
 	if tpl.Options.TrimBlocks || tpl.Options.LStripBlocks {
 		// Issue #94 https://github.com/flosch/pongo2/issues/94
 		// If an application configures pongo2 template to trim_blocks,
@@ -122,6 +126,13 @@ func (tpl *Template) newContextForExecution(context Context) (*Template, *Execut
 			prev = t
 		}
 	}
+}
+
+func (tpl *Template) newContextForExecution(context Context) (*Template, *ExecutionContext, error) {
+	// The whitespace options rewrite the template's text tokens. This must
+	// happen exactly once per compiled template: executing it repeatedly (or
+	// concurrently) must not strip more whitespace each time.
+	tpl.trimOnce.Do(tpl.applyWhitespaceOptions)
 
 	// Determine the parent to be executed (for template inheritance)
 	parent := tpl
